@@ -72,17 +72,17 @@ type ROut struct {
 	Why    string `json:"why"`
 }
 type ResetEv struct {
-	Ev     string  `json:"ev"`
-	Case   int     `json:"case"`
-	Rules  []ARule `json:"rules"`  // concrete, user rules then implicit rules
-	NUser  int     `json:"nuser"`  // number of user rules
-	Orders [][]int `json:"orders"` // permutations of the user rules
-	Acc    []bool  `json:"acc"`    // per order: registration accepted
-	Errs   []string `json:"errs"`
-	Mode   string  `json:"mode"`
-	Src    string  `json:"src"`
-	Panicked bool  `json:"panicked"`
-	AltAcc   bool  `json:"altacc"` // the other source accepted the rule set
+	Ev       string   `json:"ev"`
+	Case     int      `json:"case"`
+	Rules    []ARule  `json:"rules"`  // concrete, user rules then implicit rules
+	NUser    int      `json:"nuser"`  // number of user rules
+	Orders   [][]int  `json:"orders"` // permutations of the user rules
+	Acc      []bool   `json:"acc"`    // per order: registration accepted
+	Errs     []string `json:"errs"`
+	Mode     string   `json:"mode"`
+	Src      string   `json:"src"`
+	Panicked bool     `json:"panicked"`
+	AltAcc   bool     `json:"altacc"` // the other source accepted the rule set
 }
 type LookupEv struct {
 	Ev   string `json:"ev"`
